@@ -3,11 +3,11 @@
 package harness
 
 import (
-	"strconv"
 	"bufio"
 	"encoding/json"
 	"fmt"
 	"os"
+	"strconv"
 	"strings"
 	"sync"
 	"testing"
